@@ -1,6 +1,7 @@
 //go:build verif
 
-// C39 driver: the real priority LB policy (internal/xds/balancer/priority) between stub
+// C39 driver (in-package, to replace the unexported timer hook timeAfterFunc): the real
+// priority LB policy (internal/xds/balancer/priority) between stub
 // child policies and a recording balancer.ClientConn, on the fake clock of
 // testing/synctest.  The balancer group's close-delay cache is disabled
 // (DefaultSubBalancerCloseTimeout = 0) so that stopping a priority closes its policy at once.
@@ -14,6 +15,9 @@
 //	[2, n, s, pk]             the built child policy of n calls UpdateState{s, picker pk}
 //	[3, d]                    d seconds pass (0 <= d <= 30)
 //	[4]                       Close
+//	[5, j]                    run the j-th init-timer callback ever scheduled, if it is STALE: it has
+//	                          not run and its timer was stopped (it is no child's current initTimer) -
+//	                          i.e. its goroutine was parked on b.mu when the timer was stopped
 //
 // malformed ops, reports of a child that is not built, and everything after Close are no-ops.
 //
@@ -26,7 +30,7 @@
 // closed; s_i, p_i = the UpdateState calls the parent received during this op.
 // Picker ids: the id a stub attached, 0 = ErrNoSubConnAvailable placeholder,
 // -1 = ErrAllPrioritiesRemoved, -4 = error picker of a child whose update failed, -3 = anything else.
-package vpriority
+package priority
 
 import (
 	"encoding/json"
@@ -41,7 +45,6 @@ import (
 	"google.golang.org/grpc/balancer"
 	"google.golang.org/grpc/connectivity"
 	iserviceconfig "google.golang.org/grpc/internal/serviceconfig"
-	"google.golang.org/grpc/internal/xds/balancer/priority"
 	"google.golang.org/grpc/resolver"
 	"google.golang.org/grpc/serviceconfig"
 )
@@ -82,7 +85,7 @@ func vPriorityPickerID(p balancer.Picker) int64 {
 	switch err {
 	case balancer.ErrNoSubConnAvailable:
 		return 0
-	case priority.ErrAllPrioritiesRemoved:
+	case ErrAllPrioritiesRemoved:
 		return -1
 	}
 	if errors.Is(err, vPriorityErrUpdate) {
@@ -201,9 +204,34 @@ func vPriorityExecIn(cfg []int64, ops [][]int64) (obs [][]int64, nontrivial bool
 	k := cfg[0]
 	e := &vPriorityEnv{k: k, last: [2]int64{-1, -2}, live: map[int64]*vPriorityChild{}}
 	vPriorityCur = e
-	priority.DefaultSubBalancerCloseTimeout = 0
-	priority.DefaultPriorityInitTimeout = 10 * time.Second
-	bal := balancer.Get(priority.Name).Build(&vPriorityCC{e: e}, balancer.BuildOptions{})
+	DefaultSubBalancerCloseTimeout = 0
+	DefaultPriorityInitTimeout = 10 * time.Second
+	// record every init timer the policy schedules (the timers themselves stay real ones on
+	// the synctest clock)
+	type vPriorityTimer struct {
+		t   *time.Timer
+		f   func()
+		ran bool
+	}
+	var timers []*vPriorityTimer
+	var tmu sync.Mutex
+	oldAfterFunc := timeAfterFunc
+	defer func() { timeAfterFunc = oldAfterFunc }()
+	timeAfterFunc = func(d time.Duration, f func()) *time.Timer {
+		rec := &vPriorityTimer{f: f}
+		rec.t = time.AfterFunc(d, func() {
+			tmu.Lock()
+			rec.ran = true
+			tmu.Unlock()
+			f()
+		})
+		tmu.Lock()
+		timers = append(timers, rec)
+		tmu.Unlock()
+		return rec.t
+	}
+	balI := balancer.Get(Name).Build(&vPriorityCC{e: e}, balancer.BuildOptions{})
+	bal := balI.(*priorityBalancer)
 	closed := false
 	tg := map[string]bool{}
 	var prios []int64
@@ -238,13 +266,13 @@ func vPriorityExecIn(cfg []int64, ops [][]int64) (obs [][]int64, nontrivial bool
 			case op[0] == 1:
 				if l, ok := vPriorityPairs(op, k); ok {
 					kind = 1
-					lb := &priority.LBConfig{Children: map[string]*priority.Child{}}
+					lb := &LBConfig{Children: map[string]*Child{}}
 					old := prios
 					prios = nil
 					for _, p := range l {
 						name := fmt.Sprintf("c%d", p[0])
 						lb.Priorities = append(lb.Priorities, name)
-						lb.Children[name] = &priority.Child{Config: &iserviceconfig.BalancerConfig{
+						lb.Children[name] = &Child{Config: &iserviceconfig.BalancerConfig{
 							Name:   vPriorityBuilders[p[1]].Name(),
 							Config: &vPriorityChildCfg{name: p[0]},
 						}}
@@ -280,6 +308,31 @@ func vPriorityExecIn(cfg []int64, ops [][]int64) (obs [][]int64, nontrivial bool
 				kind = 4
 				bal.Close()
 				closed = true
+			case op[0] == 5 && len(op) == 2:
+				tmu.Lock()
+				var rec *vPriorityTimer
+				if j := op[1]; j >= 0 && j < int64(len(timers)) && !timers[j].ran {
+					rec = timers[j]
+				}
+				tmu.Unlock()
+				if rec != nil {
+					bal.mu.Lock()
+					current := false
+					for _, c := range bal.children {
+						if c.initTimer != nil && c.initTimer.timer == rec.t {
+							current = true
+						}
+					}
+					bal.mu.Unlock()
+					if !current {
+						// a stopped timer whose callback was already waiting for b.mu
+						tmu.Lock()
+						rec.ran = true
+						tmu.Unlock()
+						rec.f()
+						tg["stale_callback"] = true
+					}
+				}
 			}
 		}
 		synctest.Wait()
@@ -376,6 +429,14 @@ func vPriorityGen(r *vRand, tier string, idx int) ([]int64, [][]int64) {
 			{1, 0, 0, 1, 2, 2, 2}, {3, 10}, {3, 10}, {2, 1, 1, 104}, {2, 1, 2, 105}, {1, 2, 3}, {1, 2, 3, 0, 2}, {4},
 		}
 	}
+	if idx == 3 {
+		// stale init-timer callbacks: p0's first timer is stopped by READY, a second one is
+		// started by CONNECTING; the parked callback of the first must not count as an expiry
+		return []int64{3}, [][]int64{
+			{1, 0, 0, 1, 0, 2, 0}, {5, 0}, {2, 0, 2, 101}, {2, 0, 1, 102}, {5, 0}, {3, 5}, {5, 0}, {5, 1}, {3, 4},
+			{2, 0, 0, 103}, {2, 0, 1, 104}, {5, 1}, {5, 2}, {3, 10}, {5, 2}, {5, 3}, {2, 1, 2, 105}, {5, 3}, {5, 7}, {5, -1}, {4}, {5, 0},
+		}
+	}
 	if idx == 1 {
 		// malformed / boundary ops around a valid history
 		return []int64{2}, [][]int64{
@@ -461,6 +522,8 @@ func vPriorityGen(r *vRand, tier string, idx int) ([]int64, [][]int64) {
 			default:
 				ops = append(ops, []int64{})
 			}
+		case x < 99:
+			ops = append(ops, []int64{5, int64(r.Intn(1 + i/4))})
 		default:
 			if i > n*3/4 {
 				ops = append(ops, []int64{4})
